@@ -7,18 +7,22 @@ NS_Q = [1, 2, 3, 5, 8, 1000, 536870911, 536870912]
 NS_T = [1, 2, 3, 4, 5, 6, 7, 8, 12, 100, 255, 257, 1000, 1048577, 536870911, 536870912]
 MANIFEST = dict(
     category="other",
-    text="The contract 'ring hash < 12*nside^2 with no arithmetic check failing, for every projected position' was written for the listed NSIDE values and is REFUTED on the unchanged tree: ring::hash underflows in the polar-cap index correction for positions near the meridians k*pi/2 (known finding D16, open, reproduced natively, a minimal repair was tried and is insufficient). A witness harness re-confirms the finding on every run (KNOWN-FINDING line). What remains claimed: out-of-range cell numbers must panic (listed NSIDE incl. non powers of two and 2^29), and the contract of the repaired polar-cap ring index used by ring::center_of_projected_cell (shared with C10). Centre round trip, ring ordering and sph_coo inversion for arbitrary NSIDE are NOT decided.",
-    note="Mostly a recorded finding: the main obligation fails on the real code (D16). Remaining obligations are bounded to listed NSIDE.",
-    technique="Kani per-NSIDE full-domain harnesses over IEEE-754 doubles (CBMC) on the real ring::hash with proj as a contract stub; witness harness for the recorded finding",
+    text="Per listed NSIDE (powers of two or not, up to 2^29), for EVERY position of the projected domain -- the equatorial band and the polar gores, including positions numerically on or just outside a gore edge (what proj returns on the meridians k*pi/2) and x + 8 rounded to 8: ring hash < 12*nside^2, in-cell offsets dl, dh, dx, dy in [0,1], and no debug assertion, overflow or underflow can fail (this is the obligation that refuted the original code: finding D16, now repaired in /repo and re-checked on every run); out-of-range cell numbers must panic; the repaired polar-cap ring index used by ring::center_of_projected_cell has its contract (shared with C10). Bounded to the listed NSIDE values. That the returned cell contains the position, hash(center(h)) == h, ring ordering/sizes and sph_coo inversion for arbitrary NSIDE are NOT decided by a contract here (checked only natively while repairing D16).",
+    note="Bounded to listed NSIDE (quick: 1,2,3,5,8,1000,2^29-1,2^29); proj replaced by its contract (a point of the net, C17).",
+    technique="Kani per-NSIDE full-domain harnesses over IEEE-754 doubles (CBMC) on the real ring::hash with proj as a contract stub",
 )
-EXPLANATION = "Each band unit is complete over positions for its NSIDE; the quantifier over NSIDE is bounded to the list; caps excluded (D16)."
-ASSUMPTIONS = ["proj contract: a point of the HEALPix net (C17)", "polar caps excluded: known finding D16 (open)", "hash(center(h)) == h, ring ordering/sizes, sph_coo inverse for non-power-of-two NSIDE: not decided"]
+EXPLANATION = "Each unit is complete over positions for its NSIDE and region (band / caps); the quantifier over NSIDE is bounded to the list."
+ASSUMPTIONS = ["proj contract: a point of the HEALPix net, possibly numerically just outside a gore edge (C17)", "containment of the position in the returned cell, centre round trip, ordering: NOT decided"]
 TRUSTED_BASE = ["Kani 0.68 / CBMC 6.11 IEEE-754"]
 def units():
     us = []
-    for n in (1, 5, 1000, 536870912):
-        us.append(Unit("ringn_panic_n%d" % n, P + "ringn_panic_n%d" % n, ["ring::center_of_projected_cell", "ring::check_hash"], "nside %d: cell number >= 12 nside^2 rejected by a panic (center, sph_coo, vertices all start with it)" % n, kind="must_panic", allowed_fail=[r"Wrong hash value: too large"], timeout=600))
+    F = ["ring::hash", "ring::hash_with_dldh", "ring::dldh_to_dxdy", "ring::first_hash_in_eqr", "ring::triangular_number_x4", "ring::n_hash", "(contract stub) proj"]
+    for n in NS_T:
+        t = both if n in NS_Q else th
+        us.append(Unit("ringn_hash_n%d" % n, P + "ringn_hash_n%d" % n, F, "nside %d, every position of the equatorial band: hash < 12 nside^2, offsets in [0,1], no arithmetic check fails" % n, tiers=t, timeout=900, level="B", bound="nside %d" % n, extra=dict(no_native=True)))
+        us.append(Unit("ringn_caps_n%d" % n, P + "ringn_caps_n%d" % n, F, "nside %d, every position of the polar gores incl. numerically on/outside their edges: same" % n, tiers=t, timeout=900, level="B", bound="nside %d" % n, extra=dict(no_native=True)))
+        if n in (1, 5, 1000, 536870912):
+            us.append(Unit("ringn_panic_n%d" % n, P + "ringn_panic_n%d" % n, ["ring::center_of_projected_cell", "ring::check_hash"], "nside %d: cell number >= 12 nside^2 rejected by a panic (center, sph_coo, vertices all start with it)" % n, kind="must_panic", allowed_fail=[r"Wrong hash value: too large"], tiers=t, timeout=600))
     us.append(Unit("pcri_contract_lt_2p10", "nested::verif_ring::pcri_contract_lt_2p10", ["ring::polar_cap_ring_index"], "contract of the repaired polar-cap ring index used by ring::center_of_projected_cell: 2r(r+1) <= h < 2(r+1)(r+2), h < 2^10", level="B", bound="h < 2^10"))
     us.append(Unit("pcri_contract_2p53_2p62", "nested::verif_ring::pcri_contract_2p53_2p62", ["ring::polar_cap_ring_index"], "same, 2^53 <= h < 2^62 (huge NSIDE): time-bounded refutation search", kind="search", timeout=240))
-    us.append(Unit("ringn_hash_caps_n3_witness", P + "ringn_hash_caps_n3_witness", ["ring::hash_with_dldh"], "WITNESS of known finding D16: polar-cap rings, nside 3", kind="witness", known_finding="D16", timeout=600, extra=dict(no_native=True)))
     return us
